@@ -3,8 +3,8 @@ From Coq Require Import List Arith ZArith NArith Bool Lia.
 Import ListNotations.
 Require Import MayV.Rt.SchedModel MayV.Rt.SchedInv MayV.Rt.SchedTac MayV.Rt.SchedLoopModel MayV.Rt.SchedLoopBase.
 
-Ltac lsimp := cbn [base wpc evfd tmo dl slept now owed anon pre npop ncoll nsel coll0 ngrab ntake mkl
-                   l_base l_wpc l_evfd l_tmo l_dl l_slept l_now l_owed l_anon l_pre l_npop l_ncoll l_nsel l_coll0 l_ngrab l_ntake
+Ltac lsimp := cbn [base wpc evfd tmo dl slept now owed anon pre npop ncoll nsel coll0 ngrab ntake bud since mkl
+                   l_base l_wpc l_evfd l_tmo l_dl l_slept l_now l_owed l_anon l_pre l_npop l_ncoll l_nsel l_coll0 l_ngrab l_ntake l_bud l_since
                    set_pc set_evfd grabbed taken] in *.
 
 Ltac dmatch :=
@@ -68,7 +68,6 @@ Definition will_collect (P : params) (p : lpc) : bool :=
   match p with
   | PEvs true | PIo true | PRes (RIo true) | PCo (RIo true) => true
   | PColl _ | PPut _ => true
-  | PRun | PRes RRun | PCo RRun | PStPut => work_steal P
   | _ => false end.
 
 Definition wake_coming P l w : Prop :=
@@ -184,8 +183,6 @@ Proof.
             try (intro X; try discriminate X); auto; fail).
   - destruct (hand (base l) w); [destruct (gq (base l) w); [|discriminate G1]|]; destruct r; lsimp; rewrite ?upd_eq;
       cbn [will_collect]; repeat split; auto.
-  - destruct (lq (base l) w); destruct (work_steal P) eqn:WS; lsimp; rewrite ?upd_eq; cbn [will_collect]; rewrite ?WS;
-      repeat split; auto; intro X; discriminate X.
 Qed.
 
 Lemma jinv_step P l a l' : push_first P = true -> JInv P l -> lstep P l a = Some l' -> JInv P l'.
